@@ -11,9 +11,11 @@ Inductive case :=
 (* calls [ops] run concurrently after [prefix]; [sched] = which call ran its next critical section *)
 | Conc (id : N) (prefix ops : list op) (sched : list nat) (res : list (option push_type)) (obs : obs_state)
 (* one BuildClusterLoadAssignment *)
-| Cla (id : N) (c : cla_in) (obs : list lgroup).
+| Cla (id : N) (c : cla_in) (obs : list lgroup)
+(* one BuildClusterLoadAssignment with locality load balancing (ApplyToLoadAssignment) *)
+| ClaLb (id : N) (c : cla_in) (lb : lb_in) (obs : list pgroup).
 
-Definition case_id c := match c with Seq id _ _ _ => id | Conc id _ _ _ _ _ => id | Cla id _ _ => id end.
+Definition case_id c := match c with Seq id _ _ _ => id | Conc id _ _ _ _ _ => id | Cla id _ _ => id | ClaLb id _ _ _ => id end.
 
 Definition obs_to_state (obs : obs_state) : istate :=
   {| idx := map (fun x => (fst (fst x), {| o_id := 0; o_shards := snd (fst x); o_sa := snd x |})) obs;
@@ -26,6 +28,10 @@ Definition oN_eqb := option_eqb N.eqb.
 Definition lgroup_eqb (a b : lgroup) : bool :=
   N.eqb (fst (fst a)) (fst (fst b)) && oN_eqb (snd (fst a)) (snd (fst b)) && list_eqb' member_eqb (snd a) (snd b).
 
+Definition pgroup_eqb (a b : pgroup) : bool :=
+  N.eqb (fst (fst (fst a))) (fst (fst (fst b))) && N.eqb (snd (fst (fst a))) (snd (fst (fst b))) &&
+  oN_eqb (snd (fst a)) (snd (fst b)) && list_eqb' member_eqb (snd a) (snd b).
+
 Definition model_ok (c : case) : bool :=
   match c with
   | Seq _ ops res obs =>
@@ -36,6 +42,7 @@ Definition model_ok (c : case) : bool :=
       let '(st, ts) := run_sched st0 (map Start ops) sched in
       all_done ts && res_eqb (map result_of ts) res && view_eq st (obs_to_state obs)
   | Cla _ c obs => list_eqb' lgroup_eqb (build_cla c) obs
+  | ClaLb _ c lb obs => list_eqb' pgroup_eqb (map strip_p (build_cla_lb c lb)) obs
   end.
 
 (* ---- property oracles on the observed behaviour *)
@@ -132,11 +139,40 @@ Definition cla_prop (c : cla_in) (obs : list lgroup) : bool :=
   forallb (gw_members_ok c) obs &&
   strictly_sorted (map (fun g => fst (fst g)) obs).
 
+(* after load balancing: the same endpoints are served (none dropped, none duplicated, each in its
+   locality), every group's weight is the saturating sum of its members, priorities are 0..n-1 *)
+Definition locs_of (obs : list pgroup) : list N := prios_of (fun g : pgroup => fst (fst (fst g))) obs.
+Definition members_of_loc (L : N) (obs : list pgroup) : list member :=
+  flat_map (fun g : pgroup => snd g) (filter (fun g : pgroup => fst (fst (fst g)) =? L) obs).
+Fixpoint is_range (n : N) (l : list N) : bool :=
+  match l with [] => true | x :: l' => (x =? n) && is_range (n + 1) l' end.
+Definition pweight_ok (g : pgroup) : bool :=
+  match snd g with
+  | [] => true
+  | ms => oN_eqb (snd (fst g)) (Some (N.min (plain_sum (map m_weight ms)) U32MAX))
+  end.
+Definition expected_direct_at (c : cla_in) (L : N) : list member :=
+  if negb (c_found c) then [] else
+  match find_port (c_port c) (c_ports c) with
+  | None => []
+  | Some pname => map (fun ke => expected_member c (snd ke))
+                      (filter (fun ke => served_b c pname ke && (e_loc (snd ke) =? L)) (all_reported c))
+  end.
+Definition clalb_prop (c : cla_in) (obs : list pgroup) : bool :=
+  let direct := filter (fun m => negb (m_gw m)) (flat_map (fun g : pgroup => snd g) obs) in
+  same_members direct (expected_direct c) &&
+  forallb (fun L => same_members (filter (fun m => negb (m_gw m)) (members_of_loc L obs)) (expected_direct_at c L) &&
+                    same_members (filter m_gw (members_of_loc L obs))
+                                 (if multi_network c then expected_gw_members c L else [])) (locs_of obs) &&
+  forallb pweight_ok obs &&
+  is_range 0 (prios_of (fun g : pgroup => snd (fst (fst g))) obs).
+
 Definition prop_ok (c : case) : bool :=
   match c with
   | Seq _ ops res obs => seq_prop ops obs && push_prop_from [] ops res
   | Conc _ prefix ops _ _ obs => linearizable_from (run_ops init prefix) ops (obs_to_state obs)
   | Cla _ c obs => cla_prop c obs
+  | ClaLb _ c _ obs => clalb_prop c obs
   end.
 
 Definition mismatches := check_all case_id model_ok prop_ok.
